@@ -94,7 +94,8 @@ def specSource (f : Format) (src : Bytes) : Except TokErr Bytes :=
 /-- the class on which the engine follows the rule to the letter (`Props/C15.lean`): no comment
 spans lines and the file does not end with a comment. Outside it the engine counts a comment on
 the line where it *ends* and looks at the line before a final comment early; what it removes
-there is still only blank text of statement lines (`removed_are_blank`). -/
+there is still only blank text of content-free statement lines (checked on the real output by
+the "allowed" oracle of go/props/c15, not proved). -/
 def inClass : List Raw → Bool
   | [] => true
   | [.text _] => true
